@@ -242,12 +242,50 @@ def witnesses(ctx):
         sim.close()
 
 
+def delete_matrix(ctx):
+    """DELETE of a collection under every combination of permit_delete_collection, the letters on the collection itself and the
+    letters on its parent: the decision must come from the collection's own path (the model says which), never from the parent's D / d"""
+    for permit_delete in (False, True):
+        for parent in ("RW", "RWD", "RWd", "RrWwDO", "RrWwdo"):
+            for target in ("rw", "RW", "rwD", "RWD", "rwd", "RrWw", ""):
+                for coll, tagged in ((["u", "c1"], True), (["u", "p"], False)):
+                    sim = davsim.Sim(ctx, permit_delete=permit_delete)
+                    try:
+                        verif_rights.TABLE.clear()
+                        verif_rights.DEFAULT[0] = "RrWwDO"
+                        sim.rights_default = "RrWwDO"
+                        sim.rights_table = {}
+                        for r in ([{"method": "MKCALENDAR", "path": coll, "props": []}] if tagged else
+                                  [{"method": "MKCOL", "path": coll, "tag": "", "props": []}]):
+                            sim.step(r, "u")
+                        table = {("u", ("u",)): parent, ("u", tuple(coll)): target}
+                        set_policy(sim, table, "")
+                        r = {"method": "DELETE", "path": coll, "as_collection": True}
+                        obs, ans, diffs = sim.step(r, "u")
+                        st = obs["status"]
+                        case = {"permit_delete_collection": permit_delete, "parent /u": parent, "collection /%s" % "/".join(coll): target,
+                                "tagged": tagged, "status": st}
+                        ctx.case("delete-matrix:%s" % ("deleted" if st < 300 else "refused"), sample=case, key=["dm", permit_delete, parent, target, tagged],
+                                 nontrivial=True)
+                        own = "D" if permit_delete is False else None
+                        if st < 300 and not permit_delete and "D" not in target:
+                            ctx.violation("permit_delete_collection=False: the collection was deleted although the policy gives no 'D' on its own "
+                                          "path (%r there, %r on the parent)" % (target, parent), case)
+                        if diffs:
+                            ctx.disagree("DELETE of a collection vs model", case, diffs[:2], ans["status"] if ans else None)
+                    finally:
+                        verif_rights.TABLE.clear()
+                        verif_rights.DEFAULT[0] = "RrWw"
+                        sim.close()
+
+
 def run(ctx):
     ctx.extra["rule"] = ("generated policies (3 users x 10 paths -> 18 permission strings, default '' / r / RrWw) x permit_delete/overwrite x populated "
                          "stores x 4-14 requests of all methods by a user or anonymous, each also run on a twin store that differs only inside subtrees "
                          "where the policy gives that user nothing; non-trivial = the request was denied or hidden subtrees exist")
     ctx.trusted += ["harness/davsim.py, harness/plugins/verif_rights.py", "timing channels and log files are out of scope"]
     witnesses(ctx)
+    delete_matrix(ctx)
     rng = ctx.rng("policy")
     for pid in range(ctx.n(60, 4000)):
         run_policy(ctx, rng, pid)
